@@ -272,3 +272,23 @@ def check_floors(ctx, pid):
                "ordering %s >= floor %s: %s" % (ords, floors, reason), [site])
     # population (informational, keeps the evidence honest about what exists)
     return n
+
+
+def flows_from(body, origins, pred, depth=8, _seen=None):
+    """does any origin (or, transitively, any argument of a call appearing in it) satisfy pred?"""
+    if _seen is None:
+        _seen = set()
+    for o in origins:
+        if origin_contains(o, pred):
+            return True
+        if depth <= 0:
+            continue
+        for c in origin_calls(o):
+            if c in _seen:
+                continue
+            _seen.add(c)
+            cs = Site(body, c[1], TERM)
+            for a in cs.args():
+                if flows_from(body, body.origins(a, cs), pred, depth - 1, _seen):
+                    return True
+    return False
